@@ -259,6 +259,61 @@ End Machine.
 Arguments Ev_diag {T}. Arguments Ev_expm {T}. Arguments Ev_int {T}.
 
 (* ---------------------------------------------------------------------- *)
+(* The step rule: which propagator step every update applies, in closed form,
+   as a function of (routine, t0, requested times) ALONE.  The update routines
+   keep no memory of earlier step sizes: 'solve' always steps from t0, 'expm'
+   steps by exactly t - (previous requested time), 'integrate' is asked to go
+   from the time the stepper is at to t (unless the code version skips a
+   request for the time it is already at).                                    *)
+
+Section StepRule.
+  Variable T : Type.
+  Variable tsub : T -> T -> T.
+  Variable near : T -> T -> bool.
+  Variable skip : bool.
+
+  (* the successive differences of the requested times, starting from prev *)
+  Fixpoint increments (prev : T) (ts : list T) : list T :=
+    match ts with
+    | [] => []
+    | t :: ts' => tsub t prev :: increments t ts'
+    end.
+
+  Fixpoint int_trace (cur : T) (ts : list T) : list (event T) :=
+    match ts with
+    | [] => []
+    | t :: ts' => if skip && near t cur then int_trace cur ts' else Ev_int cur t :: int_trace t ts'
+    end.
+
+  (* the whole trace (oldest first) of a run that starts at clock `cur` *)
+  Definition closed_trace (r : routine) (t0 cur : T) (ts : list T) : list (event T) :=
+    match r with
+    | R_solved_ket => map (fun t => Ev_diag (tsub t t0) false) ts
+    | R_solved_dop => map (fun t => Ev_diag (tsub t t0) true) ts
+    | R_expm_ket => map (fun d => Ev_expm d false) (increments cur ts)
+    | R_expm_dop => map (fun d => Ev_expm d true) (increments cur ts)
+    | R_integrate => int_trace cur ts
+    end.
+
+  (* A step-reuse rule (NOT in the code as it stands, which is the instance
+     close = fun _ _ => false): an update that keeps the previously used step
+     (i.e. the scaled operator (-i dt) H built for it) and uses it again
+     whenever the key test `close dt cached` accepts the new step dt.
+     reuse_steps lists the steps such an update really applies. *)
+  Definition used_step (close : T -> T -> bool) (cache : option T) (dt : T) : T :=
+    match cache with
+    | Some c => if close dt c then c else dt
+    | None => dt
+    end.
+  Fixpoint reuse_steps (close : T -> T -> bool) (cache : option T) (prev : T) (ts : list T) : list T :=
+    match ts with
+    | [] => []
+    | t :: ts' => let u := used_step close cache (tsub t prev) in
+                  u :: reuse_steps close (Some u) t ts'
+    end.
+End StepRule.
+
+(* ---------------------------------------------------------------------- *)
 (* The oracle contract under which the machine is proved sound: times form a
    group (only the two consequences used are stated), U is a one-parameter
    group of operators, P is a two-parameter propagator family with the cocycle
@@ -323,6 +378,13 @@ Module ZI.
   Definition zget_t := get_t Z St.
   Definition zget_pt := get_pt Z St.
   Definition zreplay := replay_trace Z Op St tsub U P actL actR.
+  Definition zclosed_trace (skip : bool) := closed_trace Z tsub near skip.
+  Definition zincrements := increments Z tsub.
+  Definition zreuse_steps := reuse_steps Z tsub.
+  (* a tolerance key test |a - b| <= atol + |b| / rinv on scaled times (the
+     shape of numpy.isclose(a, b, rtol = 1 / rinv, atol)) *)
+  Definition tol_close (atol rinv : Z) (a b : Z) : bool :=
+    rinv * Z.abs (a - b) <=? rinv * atol + Z.abs b.
 
   (* a quantity conserved by every two-sided action and by no one-sided one
      (stands for trace / purity / hermiticity of a density operator) *)
